@@ -97,7 +97,10 @@ def make_job(cid, opts, ending, pre, rng, pre_debug=None, gflags=None, v4=None):
                    'gc_debug_flags': list(pre_debug), 'warn_filter': True,
                    'tb_patch': rng.random() < 0.5, 'hooks': pre}}
     if 'gc' in opts:
-        for v in rng.choice(GC_ARGS):
+        gc_args = rng.choice(GC_ARGS)
+        if gc_args == [0] and job['pre']['gc_threshold'][0] == 0:
+            gc_args = [0, 5]      # keep the run's thresholds different from the caller's
+        for v in gc_args:
             args += ['--gc', str(v)]
     if 'G' in opts:
         for f in gflags:
